@@ -18,11 +18,11 @@ variable (T : Stat) {s : Store} {out : CSem2.Outcome} {lp : Bool × Bool} {brk c
 
 theorem sim_while (n : Nat) (hc : ∀ m, m ≤ n → CallOK T m) (ih : ∀ m, m ≤ n → SimStmt T m) (e : Expr3)
     (b : Stmt)
-    (hex : exec T.S.cs T.P (n + 1) s (.while_ e b) = some out) (hfr : frag T.P T.cnts (.while_ e b) = true)
+    (hex : exec T.S.cs T.P (n + 1) s (.while_ e b) = some out) (hfr : frag T.P T.cnts T.W (.while_ e b) = true)
     (hwt : Stmt.wt T.vtys T.ret lp.1 lp.2 nd (.while_ e b) = some nd') (hp : Pos T c nd pre)
     (hext : Ext T (funcstmt T.S.cs brk cont (.while_ e b) c).ctx)
     (hits : T.S.its = pre ++ (funcstmt T.S.cs brk cont (.while_ e b) c).items ++ post)
-    (inv : SInv T.M0 T.S.cs T.cnts T.σ T.vtys s env M) :
+    (inv : SInv T.M0 T.S.cs T.cnts T.W T.σ T.vtys s env M) :
     Post T lp brk cont (T.at env M pre) (pre ++ (funcstmt T.S.cs brk cont (.while_ e b) c).items)
       (funcstmt T.S.cs brk cont (.while_ e b) c).ctx out := by
   simp only [frag, Bool.and_eq_true] at hfr
@@ -106,7 +106,7 @@ theorem sim_while (n : Nat) (hc : ∀ m, m ≤ n → CallOK T m) (ih : ∀ m, m 
       rw [hits2]
     -- iterations, entered at `while_cond`
     have hQ : ∀ k, k ≤ n → ∀ (s : Store) (env : Env) (M : Mem) (out : CSem2.Outcome),
-        exec T.S.cs T.P (k + 1) s (.while_ e b) = some out → SInv T.M0 T.S.cs T.cnts T.σ T.vtys s env M →
+        exec T.S.cs T.P (k + 1) s (.while_ e b) = some out → SInv T.M0 T.S.cs T.cnts T.W T.σ T.vtys s env M →
         Done T lp brk cont (T.at env M (pre ++ [.lbl none (lblName "while_cond" (c.blockid + 1)) []]))
           (((pre ++ [.lbl none (lblName "while_cond" (c.blockid + 1)) []]) ++ oe.items ++
             oj.items ++ [.lbl (some (.jnz oj.val (lblName "while_body" (c.blockid + 2))
